@@ -1,6 +1,7 @@
 package props
 
 import (
+	"bytes"
 	stdxml "encoding/xml"
 	"fmt"
 	"io"
@@ -396,8 +397,10 @@ func c19renderPlain(e *c19elem, b *strings.Builder) {
 	fmt.Fprintf(b, "</%s>", e.Name)
 }
 
+var c19wtr = &nodeutil.XMLWtr{}
+
 func C19(c *core.Ctx) {
-	c.Rule = "generated schemas (every built-in leaf type, leaf-lists, containers, keyed lists, choices, nodes of an imported module's grouping incl. an identityref, a leaf added by augment into that grouping's container) × conforming trees whose strings cover markup, quotes, CDATA terminators, leading/trailing/inner white space, tab/CR/LF, non-ASCII × writers {WriteXMLDoc compact, WriteXMLDoc pretty, WriteXML (streaming XMLWtr)}: (i) output parsed by encoding/xml in strict mode as one root element and compared with the expected element tree (names, namespaces, text), (ii) output compared byte for byte with the Lean writer models (tree / stream / pretty), (iii) ReadXMLDoc + UpsertFrom into a fresh reference store compared with the original tree and with the Lean reader model, as written and after a sibling interleaving that keeps the order of same-named elements, with same-named elements of a foreign namespace inserted, and with all namespaces dropped, (iv) patch/xml EscapeText against the Lean escaper on the string pool and random strings. non-trivial = tree with ≥1 list entry or nested container; distinct by (schema, tree, writer, variant)"
+	c.Rule = "generated schemas (every built-in leaf type, leaf-lists, containers, keyed lists, choices, nodes of an imported module's grouping incl. an identityref, a leaf added by augment into that grouping's container) × conforming trees whose strings cover markup, quotes, CDATA terminators, leading/trailing/inner white space, tab/CR/LF, non-ASCII × writers {WriteXMLDoc compact, WriteXMLDoc pretty, WriteXML (streaming XMLWtr), one XMLWtr reused for every document}: (i) output parsed by encoding/xml in strict mode as one root element and compared with the expected element tree (names, namespaces, text), (ii) output compared byte for byte with the Lean writer models (tree / stream / pretty), (iii) ReadXMLDoc + UpsertFrom into a fresh reference store compared with the original tree and with the Lean reader model, as written and after a sibling interleaving that keeps the order of same-named elements, with same-named elements of a foreign namespace inserted, and with all namespaces dropped, (iv) patch/xml EscapeText against the Lean escaper on the string pool and random strings. non-trivial = tree with ≥1 list entry or nested container; distinct by (schema, tree, writer, variant)"
 	c.Assumptions = append(c.Assumptions,
 		"encoding/xml (Strict) of the Go standard library is the XML 1.0 well-formedness oracle on the byte level; the Lean theorems are on the token level plus the character-data codec",
 		"strings are drawn from the characters a YANG string may hold (RFC 7950 §9.4), which are the characters XML 1.0 can carry",
@@ -459,7 +462,7 @@ func C19(c *core.Ctx) {
 			dataToks := strings.Join(c19dataToks(sc, fkids, ftree), " ")
 			hasEmpty := strings.Contains(want, "<not empty>")
 			nontrivial := strings.Contains(want, "[") || strings.Count(want, "{") > 2
-			for _, writer := range []string{"doc-compact", "doc-pretty", "stream"} {
+			for _, writer := range []string{"doc-compact", "doc-pretty", "stream", "stream-reused"} {
 				st := refstore.NewBody(nil, sc.kids, gen.Clone(tree), "")
 				st.ListSep = "\x1e"
 				var doc string
@@ -473,6 +476,12 @@ func C19(c *core.Ctx) {
 						doc, e = nodeutil.WriteXMLDoc(sel, true)
 					case "stream":
 						doc, e = nodeutil.WriteXML(sel)
+					case "stream-reused":
+						// one XMLWtr serving document after document, retargeted to a fresh buffer each time
+						buff := new(bytes.Buffer)
+						c19wtr.Out = buff
+						e = sel.InsertInto(c19wtr.Node())
+						doc = buff.String()
 					}
 					return e
 				})
@@ -498,7 +507,7 @@ func C19(c *core.Ctx) {
 				}
 				// (ii) bytes against the writer model (not where a leaf of type empty is set: its text is unconstrained)
 				if !hasEmpty {
-					mode := map[string]string{"doc-compact": "tree", "doc-pretty": "pretty", "stream": "stream"}[writer]
+					mode := map[string]string{"doc-compact": "tree", "doc-pretty": "pretty", "stream": "stream", "stream-reused": "stream"}[writer]
 					lines = append(lines, "c19 doc "+mode+" "+core.Hex("m")+" "+core.Hex("urn:m")+" "+schemaToks+" "+dataToks)
 					pends = append(pends, pend{kind: "doc", desc: writer + " bytes", impl: doc, input: input})
 				}
